@@ -165,7 +165,7 @@ func ZZC10LoopExit() {
 	head := heads[zzChoice("loop", len(heads))]
 	exits := []string{"", "    break\n", "    if c\n        break\n    end\n", "    if !c\n        break\n    end\n"}
 	exit := exits[zzChoice("exit", len(exits))]
-	place := zzChoice("place", 3) // 0 top level, 1 inside an if block, 2 inside a function
+	place := zzChoice("place", 4) // 0 top level, 1 inside an if block that shadows x, 2 inside a function, 3 inside a while body that shadows x
 	x, c := zzFloat64("x"), zzBool("c")
 	loop := head + "    print \"in\" i x\n    x := 50\n    print \"shadow\" x\n" + exit + "end\n"
 	after := "print \"after\" x\nlate := x + 1\nshow\nprint late\n"
@@ -173,10 +173,12 @@ func ZZC10LoopExit() {
 	switch place {
 	case 0:
 		src = "x := 1\nc := true\n" + loop + after
-	case 1:
-		src = "x := 1\nc := true\nif true\n" + zzIndentLines(loop+"print \"after\" x\n", "    ") + "end\nlate := x + 1\nshow\nprint late\n"
+	case 1: // the loop sits in a block that itself shadows x: after that block the outer x is back
+		src = "x := 1\nc := true\nif true\n    x := 70\n    print \"block\" x\n" + zzIndentLines(loop+"print \"inblock\" x\n", "    ") + "end\nprint \"after\" x\nlate := x + 1\nshow\nprint late\n"
 	case 2:
-		src = "x := 1\nc := true\nfunc f\n" + zzIndentLines(loop+"print \"after\" x\n", "    ") + "end\nf\nlate := x + 1\nshow\nprint late\n"
+		src = "x := 1\nc := true\nfunc f\n" + zzIndentLines(loop+"print \"after\" x\n", "    ") + "end\nf\nprint \"after\" x\nlate := x + 1\nshow\nprint late\n"
+	case 3:
+		src = "x := 1\nc := true\nw := 0\nwhile w < 2\n    w = w + 1\n    x := 70\n    print \"block\" x w\n" + zzIndentLines(loop, "    ") + "end\nprint \"after\" x\nlate := x + 1\nshow\nprint late\n"
 	}
 	src += "func show\n    print \"show\" x c\nend\n"
 	p := &zzPlat{}
